@@ -1091,6 +1091,89 @@ def witness_status(I):
             st[fid] = (True, 'witness replay raised %r' % (e,))
     return st
 
+
+# ------------------------------------------------------------------------------------------
+# corpus: minimised past failures and finding witnesses (run first)
+# ------------------------------------------------------------------------------------------
+def load_corpus():
+    try:
+        return json.load(open(os.path.join(CORPUS, 'C15', 'corpus.json'), encoding='utf-8'))
+    except OSError:
+        return {}
+
+def stream_corpus(I, R):
+    C = load_corpus()
+    reg = I.registry
+    def one_value(k, name, v, kind='corpus'):
+        stored, after, text = reload_value(I, k, name, set(v) if k.endswith('Set') else v)
+        fid = finding_of_value(k, 'vt.' + name, stored)
+        ok = (after == stored)
+        R.add_oracle(Case({'op': 'roundtrip', 'class': k, 'name': 'vt.' + name, 'value': v, 'stored': stored}, oracle_ok=ok, finding=fid, kind=kind,
+                          oracle_msg='' if ok else 'value %r of %s saved as %r: reloaded as %r' % (stored, k, file_value_lines(text), after),
+                          tags=('corpus', 'roundtrip-' + k) + (('in-finding-class',) if fid else ())))
+        if not k.endswith('Set') and isinstance(stored, (str, list, bool, int)):
+            node = I.new(k); node.setValue(v)
+            pr = PR(*(stored if isinstance(stored, list) else [stored] if isinstance(stored, str) else []))
+            R.add(Case({'op': 'val_str', 'class': k, 'value': v}, impl=wire.enc(str(node)), kind=kind, tags=('corpus', 'str-' + k)),
+                  'val_str\t%s\t%s\t%s' % (mcls(k), pr, enc_val(stored)))
+    for k, v in C.get('values', []):
+        one_value(k, 'v', v)
+    for name, v in C.get('normalized_named', []):
+        one_value('normalized', name, v)
+    for names in C.get('names', []):
+        j = reg.join(names)
+        try: back = reg.split(j)
+        except Exception as e: back = 'raised %s' % type(e).__name__
+        ok = (back == names); fid = finding_of_names(names[:-1])
+        R.add(Case({'op': 'join', 'names': names}, impl=wire.enc(j), oracle_ok=ok, kind='corpus', finding=fid,
+                   oracle_msg='' if ok else 'split(join(%r)) = %r' % (names, back), tags=('corpus', 'join')), 'join\t' + wire.enc_list(names))
+    for k, d, v in C.get('defaults', []):
+        I.reset_cache()
+        root = reg.Group(); root.setName('vt')
+        node = I.classes[k](d, 'help'); root.register('v', node); node.setValue(v)
+        reg.close(root, I.fn)
+        ok = True; msg = ''
+        try:
+            reg.open_registry(I.fn, clear=True)
+            extra = sorted(set(x.lower() for x in reg._cache.keys()) - {'vt.v'})
+            if extra: ok = False; msg = 'loading the saved file assigns variables that were not saved: %r' % extra
+        except reg.InvalidRegistryFile as e:
+            ok = False; msg = 'a %s with default %r makes the saved file unloadable: %s' % (k, d, e)
+        R.add_oracle(Case({'op': 'close', 'values': [{'class': k, 'name': 'vt.v', 'value': v, 'default': d, 'help': 'help'}]},
+                          oracle_ok=ok, oracle_msg=msg, kind='corpus', tags=('corpus', 'default-newline')))
+    for v in C.get('json', []):
+        I.reset_cache()
+        root = reg.Group(); root.setName('vt')
+        node = reg.Json({}, 'h'); root.register('v', node); node.setValue(v)
+        reg.close(root, I.fn)
+        outcome = None
+        try:
+            reg.open_registry(I.fn, clear=True)
+            root2 = reg.Group(); root2.setName('vt'); n2 = reg.Json({}, 'h'); root2.register('v', n2)
+            if n2() != v: outcome = 'reloaded as %r' % (n2(),)
+        except Exception as e:
+            outcome = 'reload raised %s: %s' % (type(e).__name__, e)
+        R.add_oracle(Case({'op': 'oracle_only', 'class': 'Json', 'value': v, 'how': 'value'}, oracle_ok=outcome is None,
+                          oracle_msg='' if outcome is None else 'Json value %r: %s' % (v, outcome), kind='corpus', tags=('corpus', 'oo-Json')))
+    # files whose network-level lines must survive a start + save with nothing reading them in between
+    world = I.world; saved = list(world.ircs); world.ircs[:] = [_StubIrc(n) for n in NETS]
+    try:
+        for text in C.get('cache_files', []):
+            with open(I.fn, 'w', encoding='utf-8') as f: f.write(text)
+            I.reset_cache()
+            reg.open_registry(I.fn, clear=True)
+            T = RealTree.__new__(RealTree); T.I = I; T.k = 'int'; T.kind = 'chan'; T.default = 1
+            res = T.boot_fresh()
+            reg.close(T.root, I.fn)
+            text2 = open(I.fn, encoding='utf-8').read()
+            want = sorted(l for l in text.split('\n') if l)
+            got = sorted(file_value_lines(text2))
+            ok = (res == 'up') and all(l in got for l in want)
+            R.add_oracle(Case({'op': 'boot_save', 'file': text}, oracle_ok=ok, kind='corpus', tags=('corpus', 'boot-save'),
+                              oracle_msg='' if ok else 'a bot started on %r and saved at once writes %r: set values were dropped' % (want, got)))
+    finally:
+        world.ircs[:] = saved
+
 # ------------------------------------------------------------------------------------------
 # run / replay
 # ------------------------------------------------------------------------------------------
@@ -1098,6 +1181,7 @@ def explore(ctx, scale, seed_stream='c15'):
     I = Impl()
     R = Run()
     r = rng.make(seed_stream)
+    stream_corpus(I, R)
     stream_codec(I, R, r, 1500 * scale)
     stream_values(I, R, r, 12 * scale, 120)
     stream_texts(I, R, r, 3000 * scale)
